@@ -15,8 +15,10 @@ cleanup() { git -C /repo worktree remove --force "$WT" >/dev/null 2>&1; rm -rf "
 trap cleanup EXIT
 ( cd "$WT" && ( git apply "$SEED/patch.diff" 2>"$OUT/apply.err" || git apply -3 "$SEED/patch.diff" 2>>"$OUT/apply.err" ) ) || { echo "$ID: PATCH DOES NOT APPLY"; cat "$OUT/apply.err" | head -5; exit 3; }
 ( cd "$WT" && GOFLAGS= go build . ./derive/... ./plugin/... ) > "$OUT/build.txt" 2>&1 || { echo "$ID: BUILD FAILS"; head -5 "$OUT/build.txt"; exit 4; }
+if [ -z "${SKIP_SUITE:-}" ]; then
 ( cd "$WT" && GOFLAGS=-mod=mod go test -vet=off -count=1 ./... 2>&1 | grep -v "no test files" | grep -v "^ok" | grep -v "gopath2\|^FAIL$\|package1 is not in std" ) > "$OUT/suite.txt"
 if [ -s "$OUT/suite.txt" ]; then echo "$ID: SUITE FAILS"; head -5 "$OUT/suite.txt"; fi
+fi
 DEMO=skip
 if [ -x "$SEED/demo/run.sh" ] || [ -f "$SEED/demo/run.sh" ]; then
   ( unset GOFLAGS; bash "$SEED/demo/run.sh" "$WT" ) > "$OUT/demo_mut.txt" 2>&1; M=$?
